@@ -9,9 +9,11 @@ import (
 	"encoding/json"
 	"fmt"
 	"math"
+	"runtime"
 	"sort"
 	"strconv"
 	"strings"
+	"sync"
 	"time"
 
 	"rare/pkg/expressions"
@@ -30,8 +32,13 @@ type c18In struct {
 	OneArg bool   `json:"one_arg,omitempty"`
 	Class  string `json:"class,omitempty"` // how the instant / string was chosen (informational)
 	// a sequence case: ONE compiled expression evaluated on these values of {0}, in this order
+	// (an empty string in Seq = the empty context: no elements at all, as the optimiser's probe sees it)
 	Seq []string `json:"seq,omitempty"`
-	Dir string   `json:"dir,omitempty"` // ascending | descending (informational)
+	Dir string   `json:"dir,omitempty"` // ascending | descending | mixed (informational)
+	// a concurrent case: ONE compiled expression evaluated by Conc goroutines at the same time, goroutine g
+	// looping Reps times over the values Seq[i], i = g mod Conc
+	Conc int `json:"goroutines,omitempty"`
+	Reps int `json:"reps,omitempty"`
 }
 
 type c18Out struct {
@@ -183,45 +190,104 @@ func c18Expr(in c18In) string {
 		return "{duration {0}}"
 	case "durationformat":
 		return "{durationformat {0}}"
+	case "roundtrip":
+		return "{time {timeformat {0} " + quoteArg(in.Fmt) + " " + quoteArg(in.Tz) + "} " + quoteArg(in.Fmt) + " " + quoteArg(in.Tz) + "}"
+	case "reformat":
+		return "{timeformat {time {0} " + quoteArg(in.Fmt) + " " + quoteArg(in.Tz) + "} " + quoteArg(in.Sub) + " " + quoteArg(in.Tz) + "}"
+	case "durroundtrip":
+		return "{duration {durationformat {0}}}"
+	case "durreformat":
+		return "{durationformat {duration {0}}}"
 	}
 	return ""
+}
+
+func ctxOf(arg string) *expressions.KeyBuilderContextArray {
+	if arg == "" {
+		return &expressions.KeyBuilderContextArray{} // the empty context
+	}
+	return &expressions.KeyBuilderContextArray{Elements: []string{arg}}
+}
+
+func c18Compile(in c18In) (c *expressions.CompiledKeyBuilder, fail string) {
+	defer func() {
+		if e := recover(); e != nil {
+			c, fail = nil, "<<PANIC>> "+fmt.Sprint(e)
+		}
+	}()
+	cc, err := stdlib.NewStdKeyBuilder().Compile(c18Expr(in))
+	if err != nil {
+		return nil, compileError
+	}
+	return cc, ""
+}
+
+func c18Eval(c *expressions.CompiledKeyBuilder, arg string) (out string) {
+	defer func() {
+		if e := recover(); e != nil {
+			out = "<<PANIC>> " + fmt.Sprint(e)
+		}
+	}()
+	return c.BuildKey(ctxOf(arg))
+}
+
+// ONE compiled expression shared by `goroutines` goroutines that start together; goroutine g evaluates the values
+// args[i], i = g mod goroutines, reps times over. expected[i] = the value of args[i] on a freshly compiled expression,
+// evaluated alone. Returns, per value, the first concurrent result that differs from expected (or expected), and the
+// number of differing results.
+func c18ImplConc(in c18In, args []string, goroutines, reps int) (outs []string, expected []string, wrong []int) {
+	if runtime.GOMAXPROCS(0) < 8 {
+		runtime.GOMAXPROCS(8)
+	}
+	expected = make([]string, len(args))
+	for i, a := range args {
+		it := in
+		it.Arg = a
+		expected[i] = c18Impl(it)
+	}
+	outs = append([]string(nil), expected...)
+	wrong = make([]int, len(args))
+	c, fail := c18Compile(in)
+	if c == nil {
+		for i := range outs {
+			outs[i] = fail
+		}
+		return
+	}
+	start := make(chan struct{})
+	var wg sync.WaitGroup
+	for g := 0; g < goroutines; g++ {
+		wg.Add(1)
+		go func(g int) {
+			defer wg.Done()
+			<-start
+			for rep := 0; rep < reps; rep++ {
+				for i := g; i < len(args); i += goroutines { // only this goroutine touches index i
+					if got := c18Eval(c, args[i]); got != expected[i] {
+						if wrong[i] == 0 {
+							outs[i] = got
+						}
+						wrong[i]++
+					}
+				}
+			}
+		}(g)
+	}
+	close(start)
+	wg.Wait()
+	return
 }
 
 // compiles the expression ONCE and evaluates the compiled expression on every argument, in order
 func c18ImplSeq(in c18In, args []string) (outs []string) {
 	outs = make([]string, len(args))
-	var c *expressions.CompiledKeyBuilder
-	func() {
-		defer func() {
-			if e := recover(); e != nil {
-				c = nil
-				for i := range outs {
-					outs[i] = "<<PANIC>> " + fmt.Sprint(e)
-				}
-			}
-		}()
-		kb := stdlib.NewStdKeyBuilder()
-		cc, err := kb.Compile(c18Expr(in))
-		if err != nil {
-			for i := range outs {
-				outs[i] = compileError
-			}
-			return
-		}
-		c = cc
-	}()
-	if c == nil {
-		return
-	}
+	c, fail := c18Compile(in)
 	for i, a := range args {
-		func() {
-			defer func() {
-				if e := recover(); e != nil {
-					outs[i] = "<<PANIC>> " + fmt.Sprint(e)
-				}
-			}()
-			outs[i] = c.BuildKey(&expressions.KeyBuilderContextArray{Elements: []string{a}})
-		}()
+		if c == nil {
+			outs[i] = fail
+		} else {
+			outs[i] = c18Eval(c, a)
+		}
 	}
 	return
 }
@@ -308,27 +374,59 @@ func c18Term(in c18In, implOut string) (string, c18Out, []string, bool) {
 			}
 			coq = fmt.Sprintf("ca %s %s %s %s", HS(in.Arg), HS(in.Sub), zc(o.Off), HS(o.Out))
 		}
+	case "roundtrip":
+		if z == nil {
+			z = zoneByName[""]
+		}
+		tags = append(tags, "fmt="+strings.ToUpper(in.Fmt))
+		layout := layoutOf(in.Fmt)
+		names := map[string]int64{}
+		if u, perr := strconv.ParseInt(in.Arg, 10, 64); perr == nil {
+			o.Abbr, o.Off = offsetAt(z.loc, u)
+			// the text in the middle, by Go's time package, and what the zone rules say about reading it back
+			var ok bool
+			names, o.LocOff, o.FinOff, ok = timeOracle(z, layout, time.Unix(u, 0).In(z.loc).Format(layout))
+			if !ok {
+				tags = append(tags, "unparseable")
+			}
+			o.GoOracle = in.Arg
+		} else {
+			tags = append(tags, "arg-not-an-integer")
+		}
+		if len(names) > 0 {
+			o.Names = names
+		}
+		coq = fmt.Sprintf("crt %s %s %s %s %s %s %s %s", HS(in.Arg), HS(in.Fmt), zc(o.Off), HS(o.Abbr), namesCoq(names), zc(o.LocOff), zc(o.FinOff), HS(o.Out))
+	case "reformat":
+		if z == nil {
+			z = zoneByName[""]
+		}
+		tags = append(tags, "fmt="+strings.ToUpper(in.Fmt))
+		layout := layoutOf(in.Fmt)
+		names, lo, fo, ok := timeOracle(z, layout, in.Arg)
+		o.LocOff, o.FinOff = lo, fo
+		if !ok {
+			tags = append(tags, "unparseable")
+		} else if v, err := time.ParseInLocation(layout, in.Arg, z.loc); err == nil {
+			o.Abbr, o.Off = offsetAt(z.loc, v.Unix())
+		}
+		if len(names) > 0 {
+			o.Names = names
+		}
+		coq = fmt.Sprintf("cft %s %s %s %s %s %s %s %s %s", HS(in.Arg), HS(in.Fmt), namesCoq(names), zc(o.LocOff), zc(o.FinOff), HS(in.Sub), zc(o.Off), HS(o.Abbr), HS(o.Out))
+	case "durroundtrip":
+		coq = fmt.Sprintf("cdr %s %s", HS(in.Arg), HS(o.Out))
+	case "durreformat":
+		coq = fmt.Sprintf("cdf %s %s", HS(in.Arg), HS(o.Out))
 	case "time", "bucket":
 		if z == nil {
 			z = zoneByName[""]
 		}
 		layout := layoutOf(in.Fmt)
 		tags = append(tags, "fmt="+strings.ToUpper(in.Fmt))
-		names := map[string]int64{}
-		if z.nameOK {
-			names = z.names
-		}
-		// zone oracle: Go's reading of the wall clock (as UTC) -> what the location's rules say about it
-		if w, err := time.ParseInLocation(layout, in.Arg, time.UTC); err == nil {
-			abbr, woff := w.Zone()
-			wall := w.Unix() + int64(woff)
-			exp := time.Date(w.Year(), w.Month(), w.Day(), w.Hour(), w.Minute(), w.Second(), 0, z.loc)
-			o.LocOff = wall - exp.Unix()
-			_, o.FinOff = offsetAt(z.loc, exp.Unix())
-			if no, ok := names[abbr]; ok && abbr != "" && abbr != "UTC" {
-				_, o.FinOff = offsetAt(z.loc, wall-no)
-			}
-		} else {
+		names, lo, fo, ok := timeOracle(z, layout, in.Arg)
+		o.LocOff, o.FinOff = lo, fo
+		if !ok {
 			tags = append(tags, "unparseable")
 		}
 		if len(names) > 0 {
@@ -370,18 +468,56 @@ func c18Term(in c18In, implOut string) (string, c18Out, []string, bool) {
 	return coq, o, tags, nontrivial
 }
 
+// zone oracle for reading a time string in a location: the abbreviation table of the location, the offset the
+// location's rules give to the wall clock Go reads from the string (as UTC), and the offset at the resulting instant
+func timeOracle(z *zoneInfo, layout, str string) (names map[string]int64, locOff, finOff int64, ok bool) {
+	names = map[string]int64{}
+	if z.nameOK {
+		names = z.names
+	}
+	w, err := time.ParseInLocation(layout, str, time.UTC)
+	if err != nil {
+		return names, 0, 0, false
+	}
+	abbr, woff := w.Zone()
+	wall := w.Unix() + int64(woff)
+	exp := time.Date(w.Year(), w.Month(), w.Day(), w.Hour(), w.Minute(), w.Second(), 0, z.loc)
+	locOff = wall - exp.Unix()
+	_, finOff = offsetAt(z.loc, exp.Unix())
+	if no, ok := names[abbr]; ok && abbr != "" && abbr != "UTC" {
+		_, finOff = offsetAt(z.loc, wall-no)
+	}
+	return names, locOff, finOff, true
+}
+
 func c18Case(in c18In) Case {
 	kb, _ := json.Marshal(in)
 	if len(in.Seq) == 0 {
 		coq, o, tags, nontrivial := c18Term(in, c18Impl(in))
 		return Case{Coq: "c1 (" + coq + ")", Desc: map[string]any{"input": in, "impl": o}, Key: string(kb), Nontrivial: nontrivial, Tags: tags}
 	}
-	// one compiled expression, many instants
-	outs := c18ImplSeq(in, in.Seq)
+	// one compiled expression, many contexts: one after the other, or by several goroutines at once
+	var outs []string
+	var tags []string
+	impl := map[string]any{}
+	if in.Conc > 0 {
+		var expected []string
+		var wrong []int
+		outs, expected, wrong = c18ImplConc(in, in.Seq, in.Conc, in.Reps)
+		total := 0
+		for _, w := range wrong {
+			total += w
+		}
+		impl["fresh_sequential"], impl["wrong_results_per_value"], impl["wrong_results"] = expected, wrong, total
+		impl["evaluations"] = in.Reps * len(in.Seq)
+		tags = []string{"concurrent", "concurrent-of=" + in.Kind, fmt.Sprintf("goroutines=%d", in.Conc)}
+	} else {
+		outs = c18ImplSeq(in, in.Seq)
+		tags = []string{"sequence", "sequence-of=" + in.Kind, "sequence-" + in.Dir, fmt.Sprintf("sequence-len=%d", len(in.Seq))}
+	}
 	terms := make([]string, len(in.Seq))
 	items := make([]c18Out, len(in.Seq))
 	seen := map[string]bool{}
-	tags := []string{"sequence", "sequence-of=" + in.Kind, "sequence-" + in.Dir, fmt.Sprintf("sequence-len=%d", len(in.Seq))}
 	for i, a := range in.Seq {
 		it := in
 		it.Seq, it.Arg = nil, a
@@ -394,8 +530,13 @@ func c18Case(in c18In) Case {
 			}
 		}
 	}
-	tags = append([]string{"kind=sequence"}, tags...)
-	return Case{Coq: "cs [" + strings.Join(terms, "; ") + "]", Desc: map[string]any{"input": in, "impl": map[string]any{"outs": outs, "items": items}},
+	if in.Conc > 0 {
+		tags = append([]string{"kind=concurrent"}, tags...)
+	} else {
+		tags = append([]string{"kind=sequence"}, tags...)
+	}
+	impl["outs"], impl["items"] = outs, items
+	return Case{Coq: "cs [" + strings.Join(terms, "; ") + "]", Desc: map[string]any{"input": in, "impl": impl},
 		Key: string(kb), Nontrivial: true, Tags: tags}
 }
 
@@ -867,15 +1008,147 @@ func c18SeqExhaustive(tier string) []Case {
 	return cases
 }
 
+// ---- values for any of the ten expression forms ----
+var allForms = []string{"format", "attr", "time", "bucket", "duration", "durationformat", "roundtrip", "reformat", "durroundtrip", "durreformat"}
+
+// a value of {0} suited to the form (an instant, a printed time, a duration, seconds)
+func formValue(r *Rng, in c18In, z *zoneInfo) string {
+	switch in.Kind {
+	case "format", "attr", "roundtrip":
+		t, _, _ := genInstant(r)
+		return strconv.FormatInt(t, 10)
+	case "time", "bucket", "reformat":
+		t, _, _ := genInstant(r)
+		return time.Unix(t, 0).In(z.loc).Format(layoutOf(in.Fmt))
+	case "duration", "durreformat":
+		return genDuration(r).Arg
+	default:
+		return strconv.FormatInt(genDurSecs(r), 10)
+	}
+}
+
+func formBad(r *Rng, in c18In) string {
+	switch in.Kind {
+	case "format", "attr", "roundtrip", "durationformat", "durroundtrip":
+		return Pick(r, []string{"abc", "1.5", "9223372036854775808", "12x", " 7"})
+	case "duration", "durreformat":
+		return Pick(r, []string{"5", "1x", "--1s", "1..5s", "s"})
+	}
+	return Pick(r, []string{"garbage", "2020-13-45T99:99:99Z", "Mon", "31/Feb/2020:00:00:00 +0000", "x"})
+}
+
+func formSetup(r *Rng, kind string) (c18In, *zoneInfo) {
+	loadZones()
+	z := Pick(r, zones)
+	in := c18In{Kind: kind, Tz: z.name}
+	switch kind {
+	case "format":
+		in.Fmt = Pick(r, fullFormats)
+	case "attr":
+		in.Sub = Pick(r, seqAttrs)
+	case "time":
+		in.Fmt = Pick(r, seqParseFormats)
+	case "bucket":
+		in.Fmt, in.Sub = Pick(r, seqParseFormats), Pick(r, seqBuckets)
+	case "roundtrip":
+		in.Fmt = Pick(r, []string{"RFC3339", "RFC1123Z", "RUBY", "NGINX", "RFC3339N", "RFC822Z", "ANSIC", "RFC1123"})
+	case "reformat":
+		in.Fmt, in.Sub = Pick(r, seqParseFormats), Pick(r, fullFormats)
+	}
+	return in, z
+}
+
+// one compiled expression over: the empty context first, then values with repeats and an unparseable one;
+// every step must be the value of its own context alone
+func genMixedSeq(r *Rng, kind string) Case {
+	in, z := formSetup(r, kind)
+	in.Class, in.Dir = "mixed-sequence", "mixed"
+	vals := []string{}
+	for i := 0; i < r.Range(3, 6); i++ {
+		vals = append(vals, formValue(r, in, z))
+	}
+	seq := []string{""}
+	seq = append(seq, vals[0], vals[1], vals[0], formBad(r, in), vals[1])
+	seq = append(seq, vals[2:]...)
+	seq = append(seq, "", vals[0], vals[len(vals)-1], vals[0])
+	in.Seq, in.Arg = seq, seq[0]
+	return c18Case(in)
+}
+
+// one compiled expression shared by 4..8 goroutines, each looping over its own 10 values, >= 3000 evaluations each
+func concCase(r *Rng, in c18In, z *zoneInfo, goroutines int) Case {
+	in.Class, in.Conc = "concurrent", goroutines
+	per := 10
+	seen := map[string]bool{}
+	for len(in.Seq) < goroutines*per {
+		v := formValue(r, in, z)
+		if v == "" || (seen[v] && len(seen) < 1000) {
+			seen[v+"#"] = true // avoid spinning on tiny value spaces
+			if len(seen) < 1000 {
+				continue
+			}
+		}
+		seen[v] = true
+		in.Seq = append(in.Seq, v)
+	}
+	in.Reps = 300
+	in.Arg = in.Seq[0]
+	return c18Case(in)
+}
+
+func genConc(r *Rng, kind string) Case {
+	in, z := formSetup(r, kind)
+	return concCase(r, in, z, r.Range(4, 8))
+}
+
+// every run: each of the ten forms concurrently (timeformat and the round trip several times), each form as a mixed sequence
+func c18SharedExhaustive(r *Rng) []Case {
+	loadZones()
+	var cases []Case
+	zn := func(name string) *zoneInfo {
+		if z, ok := zoneByName[name]; ok {
+			return z
+		}
+		return zoneByName[""]
+	}
+	fixed := []struct{ kind, f, sub, tz string }{
+		{"format", "RFC1123Z", "", "America/New_York"}, {"format", "RFC3339", "", "Europe/Berlin"}, {"format", "ANSIC", "", ""},
+		{"format", "NGINX", "", "Australia/Lord_Howe"}, {"format", "UNIX", "", "America/New_York"}, {"format", "RFC3339N", "", "Asia/Kolkata"},
+		{"format", "MONTHNAME", "", "Europe/Berlin"},
+		{"roundtrip", "RFC1123Z", "", "America/New_York"}, {"roundtrip", "RFC3339", "", "Europe/Berlin"}, {"roundtrip", "NGINX", "", ""},
+		{"time", "RFC1123Z", "", "America/New_York"}, {"time", "ANSIC", "", "Europe/Berlin"},
+		{"attr", "", "yearweek", "America/New_York"}, {"attr", "", "quarter", "Europe/Berlin"},
+		{"bucket", "RFC3339", "hours", "America/New_York"}, {"bucket", "ANSIC", "months", "Europe/Berlin"},
+		{"reformat", "RFC3339", "RFC1123Z", "America/New_York"},
+		{"duration", "", "", ""}, {"durationformat", "", "", ""}, {"durroundtrip", "", "", ""}, {"durreformat", "", "", ""},
+	}
+	for i, f := range fixed {
+		z := zn(f.tz)
+		cases = append(cases, concCase(r, c18In{Kind: f.kind, Fmt: f.f, Sub: f.sub, Tz: z.name}, z, 4+i%5))
+	}
+	for _, k := range allForms {
+		cases = append(cases, genMixedSeq(r, k), genMixedSeq(r, k))
+	}
+	return cases
+}
+
 func c18Gen(r *Rng, n int, tier string) []Case {
 	loadZones()
 	cases := c18Exhaustive(tier)
 	cases = append(cases, c18SeqExhaustive(tier)...)
+	cases = append(cases, c18SharedExhaustive(r.Fork())...)
 	base := len(cases)
 	for len(cases) < base+n {
 		var in c18In
-		if r.Chance(2, 25) {
+		switch x := r.Intn(200); {
+		case x < 12:
 			cases = append(cases, genSeq(r))
+			continue
+		case x < 20:
+			cases = append(cases, genMixedSeq(r, Pick(r, allForms)))
+			continue
+		case x == 20:
+			cases = append(cases, genConc(r, Pick(r, allForms)))
 			continue
 		}
 		switch x := r.Intn(100); {
@@ -906,6 +1179,7 @@ func main() {
 			"zones: utc, Etc/GMT+5, Etc/GMT-14, Asia/Kolkata, America/New_York, Europe/Berlin, Australia/Lord_Howe as available on the host; kinds: timeformat (all named formats, mixed case, raw layouts, bad integers), timeattr (4 attributes, bad names), " +
 			"time with explicit format (strings printed by Go for the instant in the zone, 1/4 mutated: digit, truncation, trailing text, byte, space, fractional second, case, range), buckettime (all bucket names and abbreviations), duration (printed by durationformat, component strings, limits, malformed), durationformat (boundaries, overflow, bad integers). " +
 			"sequences (state inside ONE compiled expression reused across instants): {timeformat {0} F Z}, {timeattr {0} A Z}, {buckettime {0} B F Z}, {time {0} F Z} compiled once and evaluated second by second over t-3..t+3 (sometimes up to +-8) around a breakpoint, ascending and descending — exhaustively for every 2020/2021 (+ first/last) DST change of every zone and local new-year / quarter / month starts, and 8% of the random cases; every output of the sequence is compared with the model; a sequence is one case. " +
+			"the value of a compiled expression on a context must depend on that context alone: (a) mixed sequences — each of the ten forms (timeformat, timeattr, time, buckettime, duration, durationformat, {time {timeformat ..}}, {timeformat {time ..}}, {duration {durationformat ..}}, {durationformat {duration ..}}) compiled once and evaluated on the empty context first, then values with repeats, an unparseable value and the empty context again, every step compared with the model value of that context alone; (b) concurrent cases — one compiled expression shared by 4..8 goroutines released by a start barrier, each evaluating its own 10 values 300 times (3000 evaluations per goroutine), every result compared with the value of its context on a freshly compiled expression evaluated alone; the first differing result (if any) is what the model is compared with; every form every run (21 fixed concurrent cases, 20 mixed sequences) plus 4% / 0.5% of the random cases. " +
 			"distinct = distinct (kind, argument or sequence, format, attribute/bucket, zone); non-trivial = the instant lies within 2 days / 1 week of a calendar or DST breakpoint, or the input is mutated / malformed / a limit.",
 		Gen: c18Gen,
 		Replay: func(d json.RawMessage) (Case, error) {
